@@ -2458,7 +2458,11 @@ func (s *Server) serveConnCounted(c net.Conn, countConcurrency bool) error {
 		ctx.Response.secureErrorLogMessage = s.SecureErrorLogMessage
 
 		if err == nil {
-			idleConnTime.Store(0)
+			if idleConnTime.Swap(0) == idleConnClosed {
+				// Shutdown has already closed this idle connection:
+				// don't start a request whose response can't be delivered.
+				break
+			}
 			s.setState(c, StateActive)
 
 			if s.ReadTimeout > 0 {
@@ -2770,7 +2774,12 @@ func (s *Server) serveConnCounted(c net.Conn, countConcurrency bool) error {
 			ctx.Request.bodyStream = nil
 		}
 
-		idleConnTime.Store(ctx.time.Unix())
+		if br == nil || br.Buffered() == 0 {
+			// Only a connection that is going to wait for its next request may be
+			// closed by closeIdleConns. With a pipelined request already buffered
+			// the previous response may still sit in the write buffer.
+			idleConnTime.Store(ctx.time.Unix())
+		}
 		s.setState(c, StateIdle)
 		ctx.Request.Reset()
 		ctx.Response.Reset()
@@ -3189,12 +3198,15 @@ func (s *Server) writeErrorResponse(bw *bufio.Writer, ctx *RequestCtx, serverNam
 
 var idleConnTimePool sync.Pool
 
+// idleConnClosed marks a connection that closeIdleConns has claimed and closed.
+const idleConnClosed = -1
+
 func (s *Server) closeIdleConns() {
 	s.idleConnsMu.Lock()
 	now := time.Now().Unix()
 	for c, ict := range s.idleConns {
 		t := ict.Load()
-		if t != 0 && now-t >= 0 {
+		if t > 0 && now-t >= 0 && ict.CompareAndSwap(t, idleConnClosed) {
 			if pc, ok := c.(interface{ closeConn() error }); ok {
 				// Per-IP wrappers are released by the goroutine serving the
 				// connection; only close the underlying connection here.
